@@ -298,14 +298,20 @@ fn use_alloc(path: &AllocPath, n: u64, with_data: bool, explicit_hr: bool) -> Ob
                 classify(r, |_| Ok(()))
             }
         }
-        AllocPath::DatumArrayNull | AllocPath::DeserArrayNull => {
+        AllocPath::DatumArrayNull | AllocPath::DeserArrayNull | AllocPath::DatumArrayNullSplit | AllocPath::DeserArrayNullSplit => {
             let schema = Schema::array(Schema::Null).build();
             let mut data = vec![];
-            if n > 0 {
+            let split = matches!(path, AllocPath::DatumArrayNullSplit | AllocPath::DeserArrayNullSplit);
+            if split && n >= 2 {
+                put_long(&mut data, (n - n / 2) as i64);
+                // the second block in the form with a negative count and a byte size
+                put_long(&mut data, -((n / 2) as i64));
+                put_long(&mut data, 0);
+            } else if n > 0 {
                 put_long(&mut data, n as i64);
             }
             data.push(0);
-            if matches!(path, AllocPath::DatumArrayNull) {
+            if matches!(path, AllocPath::DatumArrayNull | AllocPath::DatumArrayNullSplit) {
                 let r = datum_reader(&schema, explicit_hr).and_then(|rd| rd.read_value(&mut &data[..]));
                 classify(r, |v| match v {
                     Value::Array(items) if items.len() == len => Ok(()),
@@ -316,12 +322,16 @@ fn use_alloc(path: &AllocPath, n: u64, with_data: bool, explicit_hr: bool) -> Ob
                 classify(r, |v| if v.len() == len { Ok(()) } else { Err(format!("{} items instead of {len}", v.len())) })
             }
         }
-        AllocPath::DatumMapNull | AllocPath::DeserMapNull => {
+        AllocPath::DatumMapNull | AllocPath::DeserMapNull | AllocPath::DatumMapNullSplit => {
             let schema = Schema::map(Schema::Null).build();
             let mut data = vec![];
             if n > 0 {
-                put_long(&mut data, n as i64);
+                let first = if matches!(path, AllocPath::DatumMapNullSplit) && n >= 2 { n - n / 2 } else { n };
+                put_long(&mut data, first as i64);
                 for i in 0..n {
+                    if i == first {
+                        put_long(&mut data, (n - first) as i64);
+                    }
                     // distinct 8-byte keys
                     put_long(&mut data, 8);
                     for shift in (0..8).rev() {
@@ -330,7 +340,7 @@ fn use_alloc(path: &AllocPath, n: u64, with_data: bool, explicit_hr: bool) -> Ob
                 }
             }
             data.push(0);
-            if matches!(path, AllocPath::DatumMapNull) {
+            if matches!(path, AllocPath::DatumMapNull | AllocPath::DatumMapNullSplit) {
                 let r = datum_reader(&schema, explicit_hr).and_then(|rd| rd.read_value(&mut &data[..]));
                 classify(r, |v| match v {
                     Value::Map(_) => Ok(()),
@@ -509,8 +519,15 @@ fn use_hr(path: &HrPath) -> Obs {
     }
 }
 
-fn use_validator(which: Setting, tag: u32) -> Obs {
+fn use_validator(which: Setting, tag: u32, direct: bool) -> Obs {
     let n = special_name(which, tag);
+    if direct {
+        match which {
+            Setting::Name => return Obs::Bool(Name::new(n.as_str()).is_ok()),
+            Setting::Namespace => return Obs::Bool(Name::new_with_enclosing_namespace("ok", Some(n.as_str())).is_ok()),
+            _ => {}
+        }
+    }
     let text = match which {
         Setting::Name => format!(r#"{{"type":"fixed","name":"{n}","size":1}}"#),
         Setting::Namespace => format!(r#"{{"type":"fixed","name":"ok","namespace":"{n}","size":1}}"#),
@@ -546,7 +563,7 @@ pub fn perform(op: &Op) -> Obs {
         }
         Op::UseAlloc { path, n, with_data, explicit_hr } => use_alloc(path, *n, *with_data, *explicit_hr),
         Op::UseHr { path } => use_hr(path),
-        Op::UseValidator { which, tag } => use_validator(*which, *tag),
+        Op::UseValidator { which, tag, direct } => use_validator(*which, *tag, *direct),
         Op::UseCmp { tag } => use_cmp(*tag),
     }
 }
